@@ -175,10 +175,33 @@ pub fn gen_api(r: &mut Rng) -> String {
                 let inst = hostile_label(r);
                 let host = if r.chance(1, 2) { "okhost.local.".to_string() } else { hostile_names(r) };
                 let ip = *r.pick(&["192.168.1.10", "192.168.1.10", "10.1.1.1", "fe80::10"]);
-                let props = match r.below(3) {
+                // TXT properties around the 255-byte limit of one `key=value` string (the `=`
+                // counts), empty values, many properties (TXT data beyond 64 kB)
+                let props = match r.below(6) {
                     0 => "0".to_string(),
-                    1 => format!("1 {} some {}", hx("k"), hex(&vec![b'v'; 253])),
-                    _ => format!("1 {} none", hx(&label(255, 'k'))),
+                    1 | 2 => {
+                        let kl = *r.pick(&[1usize, 10, 100, 254]);
+                        let total = *r.pick(&[253usize, 254, 255, 256, 257]);
+                        let vl = total.saturating_sub(kl);
+                        format!("1 {} some {}", hx(&label(kl, 'k')), if vl == 0 { "-".to_string() } else { hex(&vec![b'v'; vl]) })
+                    }
+                    3 => format!("1 {} none", hx(&label(*r.pick(&[254usize, 255, 256]), 'k'))),
+                    4 => {
+                        let n = *r.pick(&[2usize, 40, 300]);
+                        let mut s = format!("{}", n);
+                        for i in 0..n {
+                            s.push_str(&format!(" {} some {}", hx(&format!("key{}", i)), hex(&vec![b'v'; 240])));
+                        }
+                        s
+                    }
+                    _ => format!("1 {} some {}", hx("k"), hex(&vec![b'v'; 253])),
+                };
+                // the TXT data matter only when the rest of the registration is accepted
+                let plain = r.chance(1, 2);
+                let (ty, inst, host, ip) = if plain {
+                    ("_ok._udp.local.".to_string(), format!("p{}", r.below(100)), "okhost.local.".to_string(), "192.168.1.10")
+                } else {
+                    (ty, inst, host, ip)
                 };
                 if ty == "_ok._udp.local." {
                     registered.push(format!("{}.{}", inst.replace('\\', "\\\\").replace('.', "\\."), ty));
